@@ -27,7 +27,7 @@ type c05Case struct {
 
 func genC05(t *rapid.T) c05Case {
 	o := gen.Opts{Hostile: rapid.IntRange(0, 3).Draw(t, "hostile") == 0}
-	po := gen.PatOpts{Opts: o, PropVar: true}
+	po := gen.PatOpts{Opts: o, PropVar: true, Optional: true}
 	var c c05Case
 	switch rapid.IntRange(0, 3).Draw(t, "how") {
 	case 0: // independent
@@ -231,11 +231,22 @@ func runC05(c c05Case) *vlib.Outcome {
 			}
 		}
 		for k := range pvars {
+			if refmatch.IsOptionalVar(k) {
+				continue // (an optional field that is not there binds nothing)
+			}
 			if _, have := b[k]; !have {
 				o.Fail("UNBOUND_VARIABLE", "pattern %s data %s: result %s leaves %s unbound", vlib.JSON(pat0), vlib.JSON(data0), vlib.JSON(b), k)
 			}
 		}
-		if !refmatch.Included(refmatch.Subst(pat0, refmatch.Bindings(b)), data0) {
+		hasOptional := false
+		for k := range pvars {
+			if refmatch.IsOptionalVar(k) {
+				hasOptional = true
+			}
+		}
+		// (with optional fields the substituted pattern need not be part
+		// of the data: a field that is not there stays out)
+		if !hasOptional && !refmatch.Included(refmatch.Subst(pat0, refmatch.Bindings(b)), data0) {
 			known("UNSOUND_SUBST", "pattern %s data %s: substituting result %s does not give a literal subset of the data", vlib.JSON(pat0), vlib.JSON(data0), vlib.JSON(b))
 		}
 	}
